@@ -8,6 +8,7 @@ import RbV.Lemmas.QGramMatches
 import RbV.Lemmas.QGramIndex
 import RbV.Lemmas.QGramExactModel
 import RbV.Lemmas.KChainFwd
+import RbV.Lemmas.LcskppFinal
 /-!
 # C19 — k-mer / q-gram indexing and sparse chaining are exact
 
@@ -403,6 +404,92 @@ theorem dpScores_max_eq_opt (ms : List M) (k : Nat) (hk : 0 < k) (hs : ms.Pairwi
       · simp at h'; rw [h']; have := entry_memR hmv; simpa using this
 
 example : dpScores [(0, 0), (1, 1), (2, 2), (5, 5), (6, 9)] 3 = [3, 4, 5, 8, 8] := by decide
+
+/-! ## the `lcskpp` routine itself (mirror model `RbV/Model/Lcskpp.lean`: event sort, max-Fenwick sweep, traceback) -/
+section lcskpp_model
+open RbV.Model.Lcskpp RbV.Lemmas.Lcskpp
+
+/-- the model's sortedness assertion accepts exactly the strictly lexicographically sorted (hence duplicate-free) lists -/
+theorem lcskpp_model_assertion (ms : List M) : sortedStrict ms = true ↔ ms.Pairwise lexLt :=
+  sortedStrict_iff ms
+
+/-- … and on any other non-empty list the model stops with the assertion message (the Rust code panics) -/
+theorem lcskpp_model_refuses_unsorted (ms : List M) (k : Nat) (hne : ms ≠ []) (hs : ¬ ms.Pairwise lexLt) :
+    lcskpp ms k = .error "incoming matches must be sorted." := by
+  have h1 : ms.isEmpty = false := by cases ms with | nil => exact absurd rfl hne | cons _ _ => rfl
+  have h2 : sortedStrict ms = false := by
+    rw [Bool.eq_false_iff]; intro h; exact hs ((sortedStrict_iff ms).mp h)
+  simp [lcskpp, h1, h2]
+
+/-- **event order**: in the sorted event vector the end event of a match `q` that ends at or before the start of `p` in
+both sequences comes before the start event of `p` — also when the coordinates coincide (end events carry the smaller
+third component) — and the start event of a match comes before its own end event (`k ≥ 1`) -/
+theorem lcskpp_event_order (ms : List M) (k : Nat) (hk : 0 < k) (p q : Nat) (hq : q < ms.length) :
+    (nonov k (mAt ms q) (mAt ms p) = true → evLe (startEv ms p) (endEv ms k q) = false) ∧
+    evLe (endEv ms k p) (startEv ms p) = false := by
+  constructor
+  · intro hn
+    rw [Bool.eq_false_iff]; intro h
+    rw [evLe_iff] at h
+    simp only [startEv, endEv] at h
+    simp only [nonov, Bool.and_eq_true, decide_eq_true_eq] at hn
+    omega
+  · rw [Bool.eq_false_iff]; intro h
+    rw [evLe_iff] at h
+    simp only [startEv, endEv] at h
+    omega
+
+/-- **the Fenwick query of a start event = maximum over the dominated matches.**  At any point of the sweep that
+satisfies the loop invariant (`Inv`, proved to hold throughout: `sweep_inv`), when the start event of match `p` is next,
+`max_col_dp.get(y_p)` returns as score the maximum final score `A` of the matches ending at or before `(x_p, y_p)` in both
+coordinates (0 if none), and when it is positive the returned index is such a match, already finished, with that score. -/
+theorem lcskpp_query_is_max_over_dominated (ms : List M) (k : Nat) (hk : 0 < k) (hs : ms.Pairwise lexLt)
+    (done rest : List Ev) (s : St) (p : Nat) (hp : p < ms.length)
+    (hpos : sortedEvents ms k = done ++ startEv ms p :: rest) (hI : Inv ms k done s) :
+    let b := Model.Fenwick.get maxNN (0, 0) s.tree (mAt ms p).2
+    b.1 = A ms k p ∧
+    (0 < b.1 → ∃ q, q < ms.length ∧ b.2 = q ∧ endEv ms k q ∈ done ∧ nonov k (mAt ms q) (mAt ms p) = true ∧
+      b.1 = F ms k q) := by
+  obtain ⟨_, hbefore, hcomplete⟩ := split_facts (sortedEvents_pairwise ms k) (sortedEvents_nodup ms k) hpos
+  exact query_spec hk hs hI hp hbefore hcomplete
+
+/-- **the sweep computes the forward recurrence**: after the loop the score of every `dp` cell is the cell of
+`dpScores` (the recurrence evaluated directly, `dp_cell_is_best_chain_ending`), for every strictly sorted match list
+and `k ≥ 1` -/
+theorem lcskpp_model_dp_is_recurrence (ms : List M) (k : Nat) (hk : 0 < k) (hs : ms.Pairwise lexLt) (q : Nat)
+    (hq : q < ms.length) : ((sweep ms k).dp.getD q (0, 0)).1 = (dpScores ms k).getD q 0 :=
+  final_cell hk hs hq
+
+/-- **the mirror model of `lcskpp` is optimal.**  For every strictly sorted (duplicate-free) match list and every
+`k ≥ 1` the model — assertion, event sort with its tie-break, sweep with the max-Fenwick tree (C18 model), diagonal
+lookup, `best_dp`, traceback with fuel `len + 1` — returns a result (no assertion failure, the traceback loop ends by its
+own condition); the path is a valid chain over the matches; its LCSk++ score is the reported score; that score is the
+reference optimum `lcskDP`; and no valid chain over the matches scores more. -/
+theorem lcskpp_model_optimal (ms : List M) (k : Nat) (hk : 0 < k) (hs : ms.Pairwise lexLt) :
+    ∃ r, lcskpp ms k = .ok r ∧ validChain ms k r.path = true ∧ score k (pathMatches ms r.path) = r.score ∧
+      r.score = lcskDP ms k ∧ ∀ c, Chain k c → (∀ e ∈ c, e ∈ ms) → score k c ≤ r.score := by
+  obtain ⟨r, h1, h2, h3, h4, _⟩ := lcskpp_model_ok hk hs
+  have hx := sorted_x_of_lex hs
+  have hopt := dpScores_max_eq_opt ms k hk hx
+  refine ⟨r, h1, h3, by rw [h4, h2], by rw [h2, hopt], ?_⟩
+  intro c hc hsub
+  rw [h2, hopt]
+  exact lcskDP_upper ms k hk hx c hc hsub
+
+/-- composition with the k-mer matcher's reference: on the matches of any two sequences the model is optimal -/
+theorem lcskpp_model_optimal_on_kmer_matches (x y : List Nat) (k : Nat) (hk : 0 < k) :
+    ∃ r, lcskpp (kmerMatches x y k) k = .ok r ∧ validChain (kmerMatches x y k) k r.path = true ∧
+      r.score = lcskDP (kmerMatches x y k) k :=
+  let ⟨r, h1, h2, _, h4, _⟩ := lcskpp_model_optimal _ k hk (QGram.kmerMatches_sorted x y k)
+  ⟨r, h1, h2, h4⟩
+
+example : ∃ r, lcskpp [(0, 0), (1, 1), (2, 2), (5, 5), (6, 9)] 3 = .ok r ∧ r.score = 8 ∧
+    validChain [(0, 0), (1, 1), (2, 2), (5, 5), (6, 9)] 3 r.path = true := by
+  obtain ⟨r, h1, h2, _, h4, _⟩ := lcskpp_model_optimal [(0, 0), (1, 1), (2, 2), (5, 5), (6, 9)] 3 (by decide)
+    (by simp [lexLt])
+  exact ⟨r, h1, by rw [h4]; decide, h2⟩
+
+end lcskpp_model
 
 /-- the score counts `k` for the first match and every non-overlapping step and `1` for a diagonal continuation -/
 theorem score_counts (k : Nat) (a b : M) (r : List M) :
